@@ -45,10 +45,11 @@ def jsonable(x: Any) -> Any:
 
 
 def load_known() -> list[dict]:
-    if not os.path.exists(KNOWN_FILE):
-        return []
-    with open(KNOWN_FILE) as f:
-        return json.load(f)["findings"]
+    out = []
+    if os.path.exists(KNOWN_FILE):
+        with open(KNOWN_FILE) as f:
+            out += json.load(f)["findings"]
+    return out
 
 
 # ---------------------------------------------------------------------------
